@@ -173,6 +173,14 @@ impl ReadXml for Error {
     }
 }
 
+impl Error {
+    /// The `error-severity` of this `rpc-error`.
+    #[must_use]
+    pub const fn severity(&self) -> Severity {
+        self.severity
+    }
+}
+
 impl fmt::Display for Error {
     fn fmt(&self, f: &mut fmt::Formatter<'_>) -> fmt::Result {
         write!(
